@@ -64,16 +64,39 @@ def run_reference(R, text, options, event='line', budget=400_000):
                 progress_chars=sink.chars, rule=getattr(E.rule, 'name', None) or options.get('rule'))
 
 
+RENDER_WALL = 30       # seconds; a rendering of these small elections takes milliseconds
+
+
+class RenderTimeout(BaseException):
+    "a renderer did not return"
+
+
+def _render_alarm(signum, frame):       # pylint: disable=unused-argument
+    raise RenderTimeout()
+
+
 def _render(R, E, order):
     "call the renderers the way Droop.main does after ^C; never raises"
     out = []
-    for name in order:
-        try:
-            txt = getattr(E, name)(True)
-            out.append(dict(name=name, text=txt))
-        except BaseException as e:  # pylint: disable=broad-except
-            frame, line_text = exc_info_in_tree(R, e)
-            out.append(dict(name=name, exc=type(e).__name__, msg=str(e)[:200], frame=frame, line_text=line_text))
+    old = signal.signal(signal.SIGALRM, _render_alarm)
+    try:
+        for name in order:
+            signal.setitimer(signal.ITIMER_REAL, RENDER_WALL)
+            try:
+                txt = getattr(E, name)(True)
+                signal.setitimer(signal.ITIMER_REAL, 0)
+                out.append(dict(name=name, text=txt))
+            except RenderTimeout as e:
+                frame, line_text = exc_info_in_tree(R, e)
+                out.append(dict(name=name, exc='RenderTimeout', msg='renderer did not return within %d s' % RENDER_WALL,
+                                frame=frame, line_text=line_text))
+            except BaseException as e:  # pylint: disable=broad-except
+                signal.setitimer(signal.ITIMER_REAL, 0)
+                frame, line_text = exc_info_in_tree(R, e)
+                out.append(dict(name=name, exc=type(e).__name__, msg=str(e)[:200], frame=frame, line_text=line_text))
+    finally:
+        signal.setitimer(signal.ITIMER_REAL, 0)
+        signal.signal(signal.SIGALRM, old)
     return out
 
 
@@ -220,6 +243,8 @@ def run_faulted(R, text, options, event, k, mech, order, driver='api', flags=Non
             ElectionCls.count = watched_count
         try:
             with simfs.mounted(R.droop.profile, fs):
+                old_alarm = signal.signal(signal.SIGALRM, _render_alarm)
+                signal.setitimer(signal.ITIMER_REAL, 2 * RENDER_WALL)
                 try:
                     tr.install()
                     out = R.Droop.main(opts)
@@ -230,6 +255,8 @@ def run_faulted(R, text, options, event, k, mech, order, driver='api', flags=Non
                     exc = e
                 finally:
                     tr.remove()
+                    signal.setitimer(signal.ITIMER_REAL, 0)
+                    signal.signal(signal.SIGALRM, old_alarm)
         finally:
             if orig_count is not None:
                 ElectionCls.count = orig_count
